@@ -637,3 +637,44 @@ func TableFromBounds(rows [][]string, minRow int) string {
 	}
 	return sb.String()
 }
+
+// LastBodyOnly violates R19.12: only the last tbody survives the walk.
+func LastBodyOnly(table *xhtml.Node) string {
+	var body *xhtml.Node
+	for c := table.FirstChild; c != nil; c = c.NextSibling {
+		if c.Type == xhtml.ElementNode && c.Data == "tbody" {
+			body = c
+		}
+	}
+	if body == nil {
+		return ""
+	}
+	return body.Data
+}
+
+// walker.visit violates R2.24: the early return for text nodes leaves the counter raised.
+type walker struct {
+	depth int
+	out   []string
+}
+
+func (w *walker) visit(n *xhtml.Node) {
+	w.depth++
+	if w.depth > 512 {
+		return
+	}
+	if n.Type == xhtml.TextNode {
+		w.out = append(w.out, n.Data)
+		return
+	}
+	for c := n.FirstChild; c != nil; c = c.NextSibling {
+		w.visit(c)
+	}
+	w.depth--
+}
+
+func WalkText(n *xhtml.Node) []string {
+	w := &walker{}
+	w.visit(n)
+	return w.out
+}
